@@ -844,3 +844,71 @@ def rule_K5(ctx, rule: str = "K5") -> None:
                     "member.name and from_dict reads it with from_string(member name), so for the style-guide naming (enum Foo { FOO_BAR = 1; }) betterproto emits \"BAR\" where the "
                     "canonical JSON is \"FOO_BAR\", and rejects the reference's \"FOO_BAR\"",
                     "enum Color { COLOR_RED = 1; }: M(c=Color.RED).to_json() == '{\"c\": \"RED\"}'; M().from_json('{\"c\": \"COLOR_RED\"}') raises ValueError")
+
+
+# ---------------------------------------------------------------------------
+# J7 containers keep their order / J8 the name of an enum value is used only when it has one
+
+
+def rule_J7(ctx, rule: str = "J7") -> None:
+    """the dict / JSON form lists the entries of a map and the items of a repeated field in the container's own order, and the
+    reader rebuilds them in the order read: a `sorted(...)` / `reversed(...)` / set around the container reorders the entries, the
+    rebuilt map compares equal but encodes to other bytes (map entries are written in dict order)"""
+    mod = ctx.repo.mod(M_INIT)
+    n = 0
+    bad = None
+    for q in ("Message.to_dict", "Message._from_dict_init", "Message.to_pydict", "Message.from_pydict"):
+        fn = mod.func(q)
+        ctx.analysed(q)
+        its = [x.iter for x in ast.walk(fn) if isinstance(x, (ast.For, ast.comprehension))]
+        for it in its:
+            n += 1
+            for c in ast.walk(it):
+                if isinstance(c, ast.Call) and isinstance(c.func, ast.Name) and c.func.id in ("sorted", "reversed", "set", "frozenset") and c.args:
+                    inner = ast.unparse(c.args[0])
+                    # reordering the fields of the class (metadata tables) is harmless; reordering a field's value is not
+                    if "meta_by_field_name" in inner or "_betterproto" in inner or "dataclasses.fields" in inner:
+                        continue
+                    bad = bad or (q, c)
+    ctx.count(n)
+    if bad:
+        q, c = bad
+        ctx.refuted(rule, "containers-keep-their-order", f"{q}:{ast.unparse(c)[:60]}", mod.loc(c),
+                    f"{q} iterates `{ast.unparse(c)[:90]}`: the entries of the value come out in another order than the container holds them, so the message rebuilt from the dict / JSON form "
+                    "has its map (or list) in that other order - equal as a dict, but encoded to different bytes", "a map filled in the order pear, apple, fig")
+    else:
+        ctx.proved(rule, "containers-keep-their-order", M_INIT, f"{n} loops / comprehensions over values in the four converters, none reorders its container")
+
+
+def rule_J8(ctx, rule: str = "J8") -> None:
+    """_enum_to_json is total over open enums: it returns a name only on a path that found the name present (a number without
+    a member is an instance of the enum class too - try_value makes one whose name is None), otherwise the number"""
+    mod = ctx.repo.mod(M_INIT)
+    if not mod.has("_enum_to_json"):
+        ctx.inconclusive(rule, "_enum_to_json:name-only-when-present", "_enum_to_json not found", M_INIT)
+        return
+    fn = mod.func("_enum_to_json")
+    ctx.analysed("_enum_to_json")
+    paths = Interp(mod, fork_ifexp=True).run(fn)
+    ctx.count(len(paths))
+    bad = None
+    n = 0
+    for p in paths:
+        if p.outcome != "return" or p.value is None:
+            continue
+        n += 1
+        v = p.value
+        if v[0] == "a" and v[2] == "name":
+            checked = any((k == ("op", "is", v, C(None)) and not val) or (k == v and val) for k, val in p.valuation.items())
+            if not checked:
+                bad = bad or (p, v)
+    if bad:
+        p, v = bad
+        ctx.refuted(rule, "_enum_to_json:name-only-when-present", show(v), mod.loc(fn),
+                    f"_enum_to_json returns {show(v)} on the path {{{', '.join(show(k) + '=' + str(val) for k, val in p.valuation.items())}}} without having found it present: a number the enum "
+                    "does not define is held as a member-like instance whose name is None (that is how it arrives from the wire), and is emitted as JSON null instead of the number",
+                    "M().parse(<enum field = 7, undefined>).to_json()")
+    elif not n:
+        ctx.inconclusive(rule, "_enum_to_json:name-only-when-present", "no returning path", mod.loc(fn))
+    else:
+        ctx.proved(rule, "_enum_to_json:name-only-when-present", mod.loc(fn), f"{n} returning paths")
